@@ -127,7 +127,10 @@ def cases(draw):
         ops = ops + ["solve"]
     if ops and ops[-1] == "solve" and draw(st.integers(0, 5)) == 0 and not has_painter:
         ops = ops + ["solve"]
-    return {"recipe": recipe, "params": params, "customs": customs, "shipped": shipped, "ops": ops}
+    # refineSolution=True: Solve ends with the local refinement, which rewrites the best trial in place; the
+    # OnMethodStop solution and the console report must show the refined result
+    refine = "solve" in ops and draw(st.integers(0, 2)) == 0
+    return {"recipe": recipe, "params": params, "customs": customs, "shipped": shipped, "ops": ops, "refine": refine}
 
 
 def summary(sol):
@@ -135,15 +138,22 @@ def summary(sol):
 
 
 def plain_reference(case):
-    run = Run(case["recipe"], case["params"], record=False)
-    lens = []
+    """Run without listeners: (global trial sequence, local-refinement evaluations, result summary)."""
+    run = Run(case["recipe"], case["params"], record=False, refine=case.get("refine", False))
+    glob, loc = [], []
     for op in case["ops"]:
+        start = len(run.problem.log)
         if op == "solve":
+            g0 = run.results().numberOfGlobalTrials
             sol = run.solve()
+            new = [(y, v) for _, y, v in run.problem.log[start:]]
+            k = sol.numberOfGlobalTrials - g0      # global trials of this Solve come first, refinement after
+            glob += new[:k]
+            loc += new[k:]
         else:
             run.step(op)
-        lens.append(len(run.problem.log))
-    return [(y, v) for _, y, v in run.problem.log], summary(run.results()), lens
+            glob += [(y, v) for _, y, v in run.problem.log[start:]]
+    return glob, loc, summary(run.results())
 
 
 PAINTER_MODES_FRAGILE = ("interpolation", "approximation")
@@ -154,7 +164,7 @@ def body(case):
     import matplotlib.pyplot as plt
     n = case["recipe"]["n"]
     try:
-        ref_seq, ref_sum, ref_lens = plain_reference(case)
+        ref_seq, ref_loc, ref_sum = plain_reference(case)
     except Exception as e:
         if "outside of interval" in str(e):
             return False, ["float-resolution"]
@@ -163,7 +173,7 @@ def body(case):
     sink = []
     try:
         clock = [0]
-        run = Run(case["recipe"], case["params"], record=False, clock=clock)
+        run = Run(case["recipe"], case["params"], record=False, clock=clock, refine=case.get("refine", False))
         first, last = make_recorder(clock), make_recorder(clock)
         run.solver.AddListener(first)
         for ov in case["customs"]:
@@ -174,8 +184,10 @@ def body(case):
         returned = []
         nsolve = 0
         calls = []          # (op, number of 'iter' events of `first` before, after)
+        local_windows = []  # (clock, clock]: evaluations of the local refinement inside a Solve
         for op in case["ops"]:
             before = sum(1 for e in first.events if e[0] == "iter")
+            c0 = clock[0]
             try:
                 if op == "solve":
                     returned.append(run.solve())
@@ -195,6 +207,12 @@ def body(case):
                      (type(e).__name__, op, who, where, str(e)[:160]))
             after = sum(1 for e in first.events if e[0] == "iter")
             calls.append((op, before, after))
+            if op == "solve" and case.get("refine"):
+                # between the end of the last iteration notification of this Solve and its OnMethodStop
+                its = [e for e in last.events if e[0] == "iter"][before:after]
+                stop = [e for e in first.events if e[0] == "stop"]
+                if stop:
+                    local_windows.append((its[-1][1] if its else c0, stop[-1][1]))
         # ---- trial log without the painters' probes
         windows = []
         for ef, el in zip(first.events, last.events):
@@ -206,8 +224,11 @@ def body(case):
                                                                                      len(last.events)))
         def probe(ev):
             return any(a < ev <= b for a, b in windows)
-        trials = [(ev, y, v) for ev, y, v in run.problem.log if not probe(ev)]
-        nprobes = len(run.problem.log) - len(trials)
+        def local(ev):
+            return any(a < ev <= b for a, b in local_windows)
+        trials = [(ev, y, v) for ev, y, v in run.problem.log if not probe(ev) and not local(ev)]
+        locals_ = [(y, v) for ev, y, v in run.problem.log if local(ev) and not probe(ev)]
+        nprobes = len(run.problem.log) - len(trials) - len(locals_)
         # ---- notification contract (seen by the first listener)
         starts = [e for e in first.events if e[0] == "start"]
         if len(starts) != 1:
@@ -227,13 +248,13 @@ def body(case):
                 pts = e[2][0]
                 if op == "solve" and len(pts) != 1:
                     fail("an iteration inside Solve delivered %d new trials" % len(pts))
-                for it in pts:
+                for it, (sy, sz) in zip(pts, e[3]):
                     if pos >= len(trials):
                         fail("a notification carries more trials than were evaluated")
                     _, y, v = trials[pos]
-                    if tuple(float(c) for c in it.GetY().floatVariables) != y or float(it.GetZ()) != v:
+                    if sy != y or sz != v:
                         fail("notification %d delivers trial (%r, %r) but evaluation %d was (%r, %r)" %
-                             (pos + 1, list(it.GetY().floatVariables), it.GetZ(), pos + 1, y, v))
+                             (pos + 1, list(sy), sz, pos + 1, y, v))
                     if trials[pos][0] > e[1]:
                         fail("a trial was delivered before it was evaluated")
                     pos += 1
@@ -264,6 +285,9 @@ def body(case):
         if got_seq != ref_seq:
             fail("with listeners attached the trial sequence differs from the run without listeners "
                  "(%d vs %d trials)" % (len(got_seq), len(ref_seq)))
+        if locals_ != ref_loc:
+            fail("with listeners attached the local refinement made %d evaluations, without listeners %d (or at "
+                 "different points)" % (len(locals_), len(ref_loc)))
         if summary(run.results()) != ref_sum:
             fail("with listeners attached the result is %r, without listeners %r" % (summary(run.results()), ref_sum))
         # ---- console final report
@@ -272,7 +296,8 @@ def body(case):
                 check_console(run.stdout(), run.results())
         has_gap = any(len(ov) < 3 for ov in case["customs"]) or bool(case["shipped"])
         big_batch = any(op != "solve" and op > 1 for op in case["ops"])
-        classes = ["N=%d" % n, "customs=%d" % len(case["customs"]), "probes>0" if nprobes else "probes=0"]
+        classes = ["N=%d" % n, "customs=%d" % len(case["customs"]), "probes>0" if nprobes else "probes=0",
+                   "refine" if case.get("refine") else "no-refine"]
         classes += ["shipped=" + s["kind"] + (":" + s["mode"] if "mode" in s else "") for s in case["shipped"]]
         for ov in case["customs"]:
             classes.append("override=" + ("+".join(c[:6] for c in sorted(ov)) or "none"))
